@@ -54,6 +54,12 @@ def main():
                     e["funcs"][fn["name"]] = max(e["funcs"].get(fn["name"], 0), fn["execution_count"])
                 for ln in f["lines"]:
                     e["lines"][ln["line_number"]] = max(e["lines"].get(ln["line_number"], 0), ln["count"])
+                    br = [b for b in ln.get("branches", []) if not b.get("throw")]
+                    if len(br) >= 2 and ln["count"] > 0:
+                        cur = e.setdefault("branches", {}).setdefault(ln["line_number"], [0] * len(br))
+                        if len(cur) == len(br):
+                            for i, b in enumerate(br):
+                                cur[i] = max(cur[i], b["count"])
         rows = []
         tot_l = tot_c = 0
         for name in sorted(files):
@@ -80,6 +86,11 @@ def main():
                         i = j + 1
                     return " ".join(out_)
                 fh.write("| %s | %d/%d | %s | %s |\n" % (name, cl, nl, ", ".join(dead) or "-", ranges(unl)[:400] or "-"))
+            fh.write("\n## Executed conditionals with an outcome that never occurred\n\n(source line: outcome counts; compiler-generated branches included)\n\n")
+            for name in sorted(files):
+                oneway = sorted((ln, c) for ln, c in files[name].get("branches", {}).items() if any(x == 0 for x in c) and any(x > 0 for x in c))
+                if oneway:
+                    fh.write("* %s: %s\n" % (name, ", ".join("%d" % ln for ln, c in oneway)))
         print("wrote", a.out, "lines %d/%d" % (tot_c, tot_l))
     finally:
         if a.keep:
